@@ -18,7 +18,7 @@ ApiCfg ==
       order |-> <<"a", "b", "c">>,
       obs |-> ("a" :> Ob(2, 1, 2) @@ "b" :> Ob(1, 2, 1) @@ "c" :> Ob(1, 1, 1)),
       alg |-> "queue", parts |-> 1, minPer |-> 1, split |-> EmptyFn, extra |-> EmptyFn,
-      plan |-> EmptyFn, advRounds |-> 0, perm |-> {}, canon |-> FALSE, seg |-> FALSE, api |-> FALSE ]
+      plan |-> EmptyFn, advRounds |-> 0, advProv |-> 0, perm |-> {}, canon |-> FALSE, seg |-> FALSE, api |-> FALSE ]
 
 AInit == cfg = ApiCfg /\ S = ApiInit /\ depth = 0 /\ last = ""
 
